@@ -33,7 +33,7 @@ def uniqueOf (rs : List (Rec H F String)) (k : String) : Bool := rs.any (fun r =
 def runL (hashOf : List β → H) (g : List (LBackupF β F)) (mask : List Bool) (name : String)
     (es : List (Entry β)) (fpf : String → F) : LBackupF β F :=
   let recs := records (runBackup (hashOf []) (view (g.map (recsD hashOf)) mask) (eventsOf hashOf fpf es))
-  ⟨⟨name, es, fun p => uniqueOf recs (keyOf ((tarPathToFile p).getD []))⟩, fpf⟩
+  ⟨⟨name, es, fun p => uniqueOf recs (keyOf ((tarPathToFile p).getD [])), fun _ => []⟩, fpf⟩
 
 abbrev LStore (β F : Type) := List (List (LBackupF β F))
 
